@@ -43,12 +43,18 @@ pub struct Sys {
     rights: Vec<(String, Option<&'static str>, u64)>,
     emitted: BTreeSet<(String, String)>,
     eviction_possible: bool,
+    /// added to every timestamp and watermark handed to the subject (the model keeps the small numbers)
+    base: u64,
 }
 
 fn make_node(window: u64, cond: Cond) -> StreamJoinNode {
+    make_node_on("left", "right", window, cond)
+}
+
+fn make_node_on(left: &str, right: &str, window: u64, cond: Cond) -> StreamJoinNode {
     StreamJoinNode::new(
-        "left".to_string(),
-        "right".to_string(),
+        left.to_string(),
+        right.to_string(),
         JoinType::Inner,
         JoinStrategy::TimeWindow { duration: Duration::from_secs(window) },
         Box::new(|e| e.data.get("k").and_then(|v| v.as_string())),
@@ -63,7 +69,8 @@ fn make_node(window: u64, cond: Cond) -> StreamJoinNode {
 impl Sys {
     /// manager: 0 = the bare node, 1 = through StreamJoinManager, 2 = through a manager on which the join id was
     /// registered, unregistered and registered again before the run
-    pub fn new(manager: u8, window: u64, cond: Cond, keys: &[Option<&'static str>], tss: &[u64], wms: &[i64]) -> Self {
+    /// 3 = through a manager that also ran a second join on the same left stream (`left JOIN other`), unregistered before the run
+    pub fn new(manager: u8, window: u64, cond: Cond, keys: &[Option<&'static str>], tss: &[u64], wms: &[i64], base: u64) -> Self {
         let subj = if manager > 0 {
             let mut m = StreamJoinManager::new();
             let sink: Arc<Mutex<Vec<JoinedEvent>>> = Arc::new(Mutex::new(Vec::new()));
@@ -72,12 +79,24 @@ impl Sys {
                 m.unregister_join("j");
             }
             let s2 = sink.clone();
+            if manager == 3 {
+                // registered before "j" in one half of the runs (window parity), after it in the other
+                if window % 2 == 0 {
+                    m.register_join("other".to_string(), make_node_on("left", "other", window, cond), Box::new(|_| {}));
+                }
+            }
             m.register_join("j".to_string(), make_node(window, cond), Box::new(move |j| s2.lock().unwrap().push(j)));
+            if manager == 3 {
+                if window % 2 != 0 {
+                    m.register_join("other".to_string(), make_node_on("left", "other", window, cond), Box::new(|_| {}));
+                }
+                m.unregister_join("other");
+            }
             Subject::Manager(m, sink)
         } else {
             Subject::Node(make_node(window, cond))
         };
-        Sys { subj, window, cond, keys: keys.to_vec(), tss: tss.to_vec(), wms: wms.to_vec(), lefts: vec![], rights: vec![], emitted: BTreeSet::new(), eviction_possible: false }
+        Sys { subj, window, cond, keys: keys.to_vec(), tss: tss.to_vec(), wms: wms.to_vec(), lefts: vec![], rights: vec![], emitted: BTreeSet::new(), eviction_possible: false, base }
     }
     fn holds(&self, l: &(String, Option<&'static str>, u64), r: &(String, Option<&'static str>, u64)) -> bool {
         l.1.is_some()
@@ -124,7 +143,9 @@ impl System for Sys {
         matches!(op, Op::Watermark(_)) as u32
     }
     fn step(&mut self, op: &Op) -> Result<u64, Mismatch> {
+        let base = self.base;
         let mk = |id: &str, src: &str, k: &Option<&'static str>, t: u64| {
+            let t = base + t;
             let mut data = vec![];
             if let Some(k) = k {
                 data.push(("k", Value::String(k.to_string())));
@@ -163,6 +184,7 @@ impl System for Sys {
                         self.eviction_possible = true;
                     }
                 }
+                let w = &(base as i64 + *w);
                 match &mut self.subj {
                     Subject::Node(n) => n.update_watermark(*w),
                     Subject::Manager(m, sink) => {
@@ -206,7 +228,10 @@ impl System for Sys {
     }
 }
 
-type Plan = (&'static str, Vec<Option<&'static str>>, Vec<u64>, Vec<i64>, usize, u32, u8);
+type Plan = (&'static str, Vec<Option<&'static str>>, Vec<u64>, Vec<i64>, usize, u32, u8, u64);
+
+/// nanosecond epoch time: above 2^53, where f64 no longer represents every integer
+const EPOCH_NS: u64 = 1_700_000_000_000_000_123;
 
 pub fn run(opts: &Opts) -> Vec<Report> {
     let k3 = vec![Some("a"), Some("b"), None];
@@ -214,22 +239,28 @@ pub fn run(opts: &Opts) -> Vec<Report> {
     let k1 = vec![Some("a")];
     let plan: Vec<Plan> = match opts.tier {
         Tier::Quick => vec![
-            ("join_3keys_len4", k3.clone(), vec![0, 1, 3], vec![1, 10], 4, 2, 0),
-            ("join_2keys_len6", k2.clone(), vec![0, 2], vec![10], 6, 1, 0),
-            ("join_1key_len8", k1.clone(), vec![0, 2], vec![10], 8, 1, 0),
-            ("join_manager_len4", k2.clone(), vec![0, 1, 3], vec![10], 4, 1, 1),
-            ("join_manager_reregistered_len4", k2.clone(), vec![0, 1, 3], vec![10], 4, 1, 2),
+            ("join_3keys_len4", k3.clone(), vec![0, 1, 3], vec![1, 10], 4, 2, 0, 0),
+            ("join_2keys_len6", k2.clone(), vec![0, 2], vec![10], 6, 1, 0, 0),
+            ("join_1key_len8", k1.clone(), vec![0, 2], vec![10], 8, 1, 0, 0),
+            ("join_manager_len4", k2.clone(), vec![0, 1, 3], vec![10], 4, 1, 1, 0),
+            ("join_manager_reregistered_len4", k2.clone(), vec![0, 1, 3], vec![10], 4, 1, 2, 0),
+            ("join_manager_second_join_unregistered_len4", k2.clone(), vec![0, 1, 3], vec![10], 4, 1, 3, 0),
+            ("join_epoch_ns_timestamps_len4", k2.clone(), vec![0, 1, 3], vec![10], 4, 1, 0, EPOCH_NS),
+            ("join_epoch_ns_timestamps_manager_len4", k1.clone(), vec![0, 1, 3], vec![10], 4, 1, 1, EPOCH_NS),
         ],
         Tier::Thorough => vec![
-            ("join_3keys_len5", k3.clone(), vec![0, 1, 3], vec![1, 10], 5, 2, 0),
-            ("join_2keys_len7", k2.clone(), vec![0, 2], vec![1, 10], 7, 2, 0),
-            ("join_1key_len9", k1.clone(), vec![0, 2], vec![10], 9, 2, 0),
-            ("join_manager_len5", k2.clone(), vec![0, 1, 3], vec![10], 5, 1, 1),
-            ("join_manager_reregistered_len5", k2.clone(), vec![0, 1, 3], vec![10], 5, 1, 2),
+            ("join_3keys_len5", k3.clone(), vec![0, 1, 3], vec![1, 10], 5, 2, 0, 0),
+            ("join_2keys_len7", k2.clone(), vec![0, 2], vec![1, 10], 7, 2, 0, 0),
+            ("join_1key_len9", k1.clone(), vec![0, 2], vec![10], 9, 2, 0, 0),
+            ("join_manager_len5", k2.clone(), vec![0, 1, 3], vec![10], 5, 1, 1, 0),
+            ("join_manager_reregistered_len5", k2.clone(), vec![0, 1, 3], vec![10], 5, 1, 2, 0),
+            ("join_manager_second_join_unregistered_len5", k2.clone(), vec![0, 1, 3], vec![10], 5, 1, 3, 0),
+            ("join_epoch_ns_timestamps_len5", k2.clone(), vec![0, 1, 3], vec![10], 5, 1, 0, EPOCH_NS),
+            ("join_epoch_ns_timestamps_manager_len5", k1.clone(), vec![0, 1, 3], vec![10], 5, 1, 1, EPOCH_NS),
         ],
     };
     let mut out = vec![];
-    for (name, keys, tss, wms, depth, max_cost, manager) in plan {
+    for (name, keys, tss, wms, depth, max_cost, manager, base) in plan {
         if !crate::props::wants(opts, name) {
             continue;
         }
@@ -238,13 +269,15 @@ pub fn run(opts: &Opts) -> Vec<Report> {
             for cond in [Cond::True, Cond::LeftNotAfterRight] {
                 let mut cfg = Config::new(name, depth);
                 cfg.max_cost = max_cost;
-                cfg.ctx = json!({"window_s": window, "cond": format!("{:?}", cond), "manager": manager, "keys": keys, "tss": tss, "wms": wms});
+                cfg.ctx = json!({"window_s": window, "cond": format!("{:?}", cond), "manager": manager, "keys": keys, "tss": tss, "wms": wms, "timestamp_base": base});
                 let (k, t, w) = (keys.clone(), tss.clone(), wms.clone());
-                let r = explore::explore(&move || Sys::new(manager, window, cond, &k, &t, &w), &cfg);
+                let r = explore::explore(&move || Sys::new(manager, window, cond, &k, &t, &w, base), &cfg);
                 total.merge(r);
             }
         }
-        total.bound = format!("all arrival histories of length <= {} over left/right x keys {:?} x timestamps {:?} with <= {} watermark advances from {:?}; windows 0,1,2 s; 2 join conditions", depth, keys, tss, max_cost, wms);
+        total.bound = format!("all arrival histories of length <= {} over left/right x keys {:?} x timestamps {:?} with <= {} watermark advances from {:?}; windows 0,1,2 s; 2 join conditions{}{}", depth, keys, tss, max_cost, wms,
+            if base > 0 { format!("; every timestamp and watermark offset by {} (nanosecond epoch time, above 2^53)", base) } else { String::new() },
+            match manager { 1 => "; through StreamJoinManager", 2 => "; through a manager on which the join id was registered, unregistered and registered again", 3 => "; through a manager that also held a second join on the same left stream, unregistered before the run", _ => "" });
         for l in ["left", "right", "watermark"] {
             if !total.letters.contains_key(l) {
                 total.notes.push(format!("VACUITY: letter '{}' never enabled", l));
@@ -266,6 +299,7 @@ pub fn replay(case: &serde_json::Value) -> crate::props::ReplayResult {
         .unwrap_or_default();
     let tss: Vec<u64> = ctx["tss"].as_array().map(|a| a.iter().filter_map(|x| x.as_u64()).collect()).unwrap_or_default();
     let wms: Vec<i64> = ctx["wms"].as_array().map(|a| a.iter().filter_map(|x| x.as_i64()).collect()).unwrap_or_default();
+    let base = ctx["timestamp_base"].as_u64().unwrap_or(0);
     let ch = crate::props::choices_of(case);
-    crate::props::conv(explore::replay(&move || Sys::new(manager, window, cond, &keys, &tss, &wms), &ch))
+    crate::props::conv(explore::replay(&move || Sys::new(manager, window, cond, &keys, &tss, &wms, base), &ch))
 }
